@@ -211,7 +211,7 @@ Proof. intros Hs. unfold parser_err, sc_error. cbn [p_sc_nil p_sc p_fp]. rewrite
    the end condition - or tokens consume a prefix and the next Scan reports ErrTooLong *)
 Definition pf_result (B : N) (e : ending) (p : parser) (ls0 : list bytes) (tl0 : bytes) : Prop :=
   (exists LS tl, pf_run p (fields_of ls0 ++ fields_of LS) (end_err tl e) /\
-     (tl0 = [] -> toks (p_rest p) LS tl) /\ (tl0 <> [] -> LS = [] /\ tl = tl0)) \/
+     (tl0 = [] -> toks (p_rest p) LS tl) /\ (tl0 <> [] -> LS = [] /\ tl = tl0) /\ cpath B (p_rest p)) \/
   (exists LS P, pf_run p (fields_of ls0 ++ fields_of LS) (Some ETooLong) /\ tl0 = [] /\ ~ last_state p /\
      tpath B (p_rest p) P /\ toks P LS []).
 
@@ -229,7 +229,7 @@ Proof.
     destruct Hfl as (f' & Hnext & Hw' & Hk' & He' & Hlen').
     destruct (fp_next_fuel_pres _ _ _ _ Hnext) as (_ & Hrb & Hst1 & Hst2).
     pose proof (parser_next_field p fld f' Hnext) as Hpn.
-    destruct (IH (p_with_fp p f') ls' tl0) as [(LS & tl & Hrun & Ht1 & Ht2)|(LS & P & Hrun & Ht0 & Hnl0 & Hpath & Htoks)].
+    destruct (IH (p_with_fp p f') ls' tl0) as [(LS & tl & Hrun & Ht1 & Ht2 & Hcp)|(LS & P & Hrun & Ht0 & Hnl0 & Hpath & Htoks)].
     + clear - Hn Hlen'. unfold p_with_fp, p_rest in *. cbn [p_fp p_sc p_rd]. lia.
     + unfold pcond, p_with_fp, last_state, p_rest in *. cbn [p_fp p_sc p_rd p_first p_sc_nil].
       split; [exact Hinv|]. split; [exact Hi2|]. split; [exact Hend|]. split; [exact Hfirst|]. split; [exact Hnil|].
@@ -239,7 +239,7 @@ Proof.
       apply Hst2; [exact Hb|]. destruct (fp_data (p_fp p)); [congruence|cbn [length]; apply Nat.lt_0_succ].
     + exact Hw'.
     + exact Htl.
-    + left. exists LS, tl. split; [|split; assumption]. cbn [app]. eapply pf_field; eassumption.
+    + left. exists LS, tl. split; [|split; [assumption|split; assumption]]. cbn [app]. eapply pf_field; eassumption.
     + right. exists LS, P. split; [cbn [app]; eapply pf_field; eassumption|].
       split; [exact Ht0|]. split; [exact Hnl0|]. split; [exact Hpath|exact Htoks].
   - (* the current token is exhausted: Scan *)
@@ -285,13 +285,14 @@ Proof.
       assert (Htl1 : tl1 <> [] -> last_state p1).
       { intros Hne. destruct HD as [Hm|Hl]; [|exact Hl]. exfalso.
         destruct (shape_of_mid _ _ _ _ _ Hn0 Hsf Hm) as [ls Hs]. rewrite Hw1 in Hs. injection Hs as _ Hs. congruence. }
-      destruct (IH p1 ls1 tl1) as [(LS1 & tl & Hrun & Ht1 & Ht2)|(LS1 & P' & Hrun & Ht0 & Hnl1 & Hpath & Htoks)].
+      destruct (IH p1 ls1 tl1) as [(LS1 & tl & Hrun & Ht1 & Ht2 & Hcp)|(LS1 & P' & Hrun & Ht0 & Hnl1 & Hpath & Htoks)].
       * unfold p1 at 1. cbn [p_fp fp_data]. rewrite Hp1r. clear - Hn HlR' Hlens Hadv Hn0. lia.
       * exact Hc1.
       * exact Hw1.
       * exact Htl1.
       * left. exists (ls1 ++ LS1), tl. rewrite fields_of_app. split; [eapply pf_run_eq; eassumption|].
-        split; [|intros Hne; contradiction].
+        split; [|split; [intros Hne; contradiction|]].
+        2:{ rewrite Hp1r in Hcp. exact (cp_tok B _ n0 eof adv tok Hn0 HnB Heof Hsf Hcp). }
         intros _. rewrite HR. apply (toks_step nls tok _ ls1 tl1 LS1 tl Hnl Hh Hw1).
         -- destruct HD as [Hm|[Hl _]]; [left; exact (shape_of_mid _ _ _ _ _ Hn0 Hsf Hm)|right]. rewrite <- Hrest'. exact Hl.
         -- intros E. rewrite <- Hp1r. exact (Ht1 E).
@@ -306,7 +307,7 @@ Proof.
            apply toks_mid; auto.
     + (* no token *)
       destruct Hpost as (Hst & Hcase). rewrite Hfirst in Hst. injection Hst as -> ->.
-      destruct Hcase as [(Hne & Htoo & Hlen & Hmore)|(HR & Herr2 & Hrest2)].
+      destruct Hcase as [(Hne & Htoo & Hlen & Hmore)|(HR & Herr2 & Hrest2 & HB0)].
       * (* ErrTooLong *)
         assert (Hnl0 : ~ last_state p) by (intros [_ Hl]; contradiction).
         assert (Htl0 : tl0 = []) by (destruct tl0; [reflexivity|exfalso; apply Hnl0, Htl; discriminate]).
@@ -320,6 +321,6 @@ Proof.
         rewrite Hend in Herr2.
         pose proof (parser_err_end e sc' rd' f' false (p_sc_nil p) tl0 He Herr2 Hnil) as Hpe.
         rewrite <- Hpe by (rewrite Herr', Hferr; reflexivity).
-        split; [apply pf_end; exact Hpn|]. split; [|auto].
+        split; [apply pf_end; exact Hpn|]. split; [|split; [auto|rewrite HR; constructor]].
         intros ->. rewrite HR. constructor.
 Qed.
